@@ -1,6 +1,7 @@
 import ScriggoV.Lemmas.BuiltinsJSON
 import ScriggoV.Lemmas.BuiltinsQuery
 import ScriggoV.Lemmas.BuiltinsAbbr
+import ScriggoV.Lemmas.BuiltinsText
 /-! C25 — builtin functions honour their documentation and never panic instead of erroring.
 Property theorems only, for all inputs; loop invariants and table facts are in
 `Lemmas/Builtins*.lean`, `Lemmas/Runes.lean`. The table `lookupJSONSpace` (with its length),
@@ -176,5 +177,199 @@ theorem goMin_spec (x y : Int) : goMin x y = min x y := by
   unfold goMin; split <;> omega
 
 example : InRange minInt64 ∧ goAbs minInt64 = minInt64 ∧ goAbs (-5) = 5 := by decide
+
+/-! ### IndentJSON / MarshalJSONIndent: the prefix/indent rule
+
+`MarshalJSONIndent` documents "prefix and indent can only contain whitespace: ' ', '\t', '\n' and
+'\r'" — exactly `onlyJSONWhitespace_eq_spec`. `IndentJSON` documents "panics … if prefix or indent
+contain characters other than ' ' or '\t'", which the shared validation loop does not implement:
+LF and CR are accepted too (known finding `indentjson-doc-newline`, a documentation imprecision:
+`json.Indent` itself accepts any prefix). -/
+
+def spaceOrTab (c : UInt8) : Bool := c == 32 || c == 9
+
+/-- `IndentJSON`'s documented rule, at full strength: false of the code -/
+def IndentJSONDocRule : Prop := ∀ s : Bytes, onlyJSONWhitespace s = .ok (s.all spaceOrTab)
+
+theorem indentJSON_doc_rule_refuted : ¬ IndentJSONDocRule := by
+  intro h
+  have := h [10]
+  rw [onlyJSONWhitespace_eq_spec] at this
+  exact absurd (Except.ok.inj this) (by decide)
+
+/-- the part of `IndentJSON`'s rule that holds: everything the documentation allows is accepted,
+and whatever is accepted is JSON whitespace (missing: LF and CR are accepted although the
+documentation of `IndentJSON` — not of `MarshalJSONIndent` — excludes them) -/
+theorem indentJSON_doc_rule_partial (s : Bytes) :
+    (s.all spaceOrTab = true → onlyJSONWhitespace s = .ok true) ∧
+    (onlyJSONWhitespace s = .ok true → s.all isWS = true) := by
+  rw [onlyJSONWhitespace_eq_spec]
+  constructor
+  · intro h
+    congr 1
+    rw [List.all_eq_true] at h ⊢
+    intro x hx
+    have := h x hx
+    unfold spaceOrTab at this
+    unfold isWS
+    simp only [Bool.or_eq_true] at this ⊢
+    rcases this with h | h
+    · exact Or.inl (Or.inl (Or.inl h))
+    · exact Or.inl (Or.inl (Or.inr h))
+  · intro h; exact Except.ok.inj h
+
+example : [32, 9, 32].all spaceOrTab = true := by decide
+
+/-! ### the source text every hand-written control flow was modelled against -/
+
+/-- the normalised source of each hand-modelled function in builtin.go is the text its model
+was written against (Model/BuiltinsText.lean); any edit of one of them breaks this obligation
+until the model has been re-read -/
+theorem hand_modelled_sources_pinned :
+    Gen.BuiltinFuncs.srcIsSeparator = expectedSrcIsSeparator ∧
+    Gen.BuiltinFuncs.srcCapitalize = expectedSrcCapitalize ∧
+    Gen.BuiltinFuncs.srcCapitalizeAll = expectedSrcCapitalizeAll ∧
+    Gen.BuiltinFuncs.srcToKebab = expectedSrcToKebab ∧
+    Gen.BuiltinFuncs.srcReverse = expectedSrcReverse ∧
+    Gen.BuiltinFuncs.srcAbbreviate = expectedSrcAbbreviate ∧
+    Gen.BuiltinFuncs.srcAbs = expectedSrcAbs ∧
+    Gen.BuiltinFuncs.srcMax = expectedSrcMax ∧
+    Gen.BuiltinFuncs.srcMin = expectedSrcMin ∧
+    Gen.BuiltinFuncs.srcQueryEscape = expectedSrcQueryEscape ∧
+    Gen.BuiltinFuncs.srcIndentJSON = expectedSrcIndentJSON ∧
+    Gen.BuiltinFuncs.srcMarshalJSONIndent = expectedSrcMarshalJSONIndent :=
+  ⟨rfl, rfl, rfl, rfl, rfl, rfl, rfl, rfl, rfl, rfl, rfl, rfl⟩
+
+/-! ### Capitalize
+
+Documentation: "Capitalize returns a copy of the string s with the first non-separator in upper
+case." `U` stands for package unicode (IsUpper, ToUpper, IsLetter, IsDigit, IsSpace). -/
+open ScriggoV.Utf8
+
+/-- **no fault and byte-for-byte preservation, for every byte string and whatever package unicode
+answers**: the result is `s` itself, or `s` with exactly one rune — the first non-separator one,
+not upper case — replaced by the encoding of its upper case; all bytes before (a run of whole
+separator runes) and after it are unchanged. (The class of fixes/C25-capitalize-rune-width.md:
+`s[i+size:]` can never be out of range.) -/
+theorem capitalize_structure (U : UnicodeFns) (s : Bytes) :
+    ∃ out, capitalize U s = .ok out ∧ CapResult U [] s out := by
+  have := capLoop_spec U s.length s [] (Nat.le_refl _)
+  simpa [capitalize] using this
+
+theorem capitalize_no_fault (U : UnicodeFns) (s : Bytes) : ∀ f, capitalize U s ≠ .error f := by
+  intro f h
+  obtain ⟨out, ho, _⟩ := capitalize_structure U s
+  rw [ho] at h; cases h
+
+/-- **idempotence** under what is assumed of package unicode (`CapUnicodeOK`: ToUpper∘ToUpper =
+ToUpper, ToUpper keeps separator-ness and validity, U+FFFD is not a separator — checked over all
+runes by the harness) -/
+theorem capitalize_idempotent (U : UnicodeFns) (hU : CapUnicodeOK U) (s out : Bytes)
+    (h : capitalize U s = .ok out) : capitalize U out = .ok out := by
+  obtain ⟨out', ho, hres⟩ := capitalize_structure U s
+  rw [ho] at h
+  have : out' = out := Except.ok.inj h
+  subst this
+  exact capitalize_idem_aux U hU s out' hres ho
+
+/-- a non-vacuous instance of the unicode parameter (ASCII only), used by the examples -/
+def asciiUnicode : UnicodeFns where
+  isLower r := decide (97 ≤ r ∧ r ≤ 122)
+  isUpper r := decide (65 ≤ r ∧ r ≤ 90)
+  isDigit r := decide (48 ≤ r ∧ r ≤ 57)
+  isLetter r := decide ((97 ≤ r ∧ r ≤ 122) ∨ (65 ≤ r ∧ r ≤ 90))
+  isSpace r := decide (r = 32 ∨ (9 ≤ r ∧ r ≤ 13) ∨ r = 0x85 ∨ r = 0xA0)
+  toUpper r := if 97 ≤ r ∧ r ≤ 122 then r - 32 else r
+  toLower r := if 65 ≤ r ∧ r ≤ 90 then r + 32 else r
+
+example : capitalize asciiUnicode [32, 255, 97] = .ok [32, 0xEF, 0xBF, 0xBD, 97] := by rfl
+example : capitalize asciiUnicode [32, 45, 97, 98, 32, 99] = .ok [32, 45, 65, 98, 32, 99] := by rfl
+example : capitalize asciiUnicode [0xC9, 0x90] = .ok [0xC9, 0x90] := by rfl
+
+/-! ### CapitalizeAll
+
+Documentation: "CapitalizeAll returns a copy of the string s with the first letter of each word
+in upper case." No index arithmetic (`strings.Map`); the model cannot fault. -/
+
+/-- **only first letters change**: rune `k` of the result is rune `k` of `s`, upper-cased exactly
+when the rune before it (a space before the first) is a separator; nothing else changes -/
+theorem capitalizeAll_structure (U : UnicodeFns) (s : Bytes) :
+    capitalizeAll U s =
+      (List.zipWith (capAllStep U) (32 :: runeVals s) (runeVals s)).flatMap encodeRune := by
+  rw [capitalizeAll_eq, capAllRunes_zipWith]
+
+/-- **idempotence**, on bytes, under `UpperStable` and validity-preservation of ToUpper -/
+theorem capitalizeAll_idempotent (U : UnicodeFns) (hU : UpperStable U)
+    (hV : ∀ r, ValidRune r → ValidRune (U.toUpper r)) (s : Bytes) :
+    capitalizeAll U (capitalizeAll U s) = capitalizeAll U s := by
+  rw [capitalizeAll_eq U s, capitalizeAll_eq U]
+  rw [runeVals_flatMap_encode _ (capAllRunes_valid U hV _ _ (runeVals_valid s))]
+  rw [capAllRunes_idem U hU _ 32 32 rfl]
+
+example : capitalizeAll asciiUnicode [97, 98, 32, 99, 255, 45, 100]
+    = [65, 98, 32, 67, 0xEF, 0xBF, 0xBD, 45, 68] := by rfl
+
+/-! ### ToKebab
+
+Documentation: "ToKebab returns a copy of the string s in kebab case form." -/
+
+/-- **no index fault** (`runes[i-1]`, `runes[i+1]`) for any string, whatever package unicode answers -/
+theorem toKebab_no_fault (U : UnicodeFns) (s : Bytes) : ∀ f, toKebab U s ≠ .error f := by
+  intro f h
+  obtain ⟨res, hr⟩ := kebabLoop_no_fault U (runeVals s) (runeVals s).length 0 false [] (by omega)
+    (fun h => by cases h)
+  unfold toKebab toKebabRunes at h
+  rw [List.range_eq_range', hr] at h
+  cases h
+
+/-- **kebab shape**: the result (as runes) does not begin or end with a dash, has no two adjacent
+dashes, and every rune of it is a dash, a lower-case letter or digit of `s`, or the lower case of
+an upper-case letter of `s` — under `KebabUnicodeOK` (the dash is neither lower case, a digit nor
+the lower case of an upper-case letter) -/
+theorem toKebab_shape (U : UnicodeFns) (hU : KebabUnicodeOK U) (s : Bytes) :
+    ∃ res, toKebab U s = .ok (res.flatMap encodeRune) ∧ res.head? ≠ some 45 ∧ res.getLast? ≠ some 45 ∧
+      noDoubleDash res = true ∧ ∀ x ∈ res, KebabFrom U (runeVals s) x := by
+  obtain ⟨res, hr, h1, h2, h3, h4⟩ := toKebabRunes_spec U hU (runeVals s)
+  exact ⟨res, by unfold toKebab; rw [hr], h1, h2, h3, h4⟩
+
+example : KebabUnicodeOK asciiUnicode := by
+  constructor
+  · intro r h; unfold Gen.BuiltinFuncs.kebabCase1 asciiUnicode at h; simp at h; omega
+  · intro r h; unfold Gen.BuiltinFuncs.kebabCase2 asciiUnicode at h
+    simp only [asciiUnicode, decide_eq_true_eq] at h ⊢
+    rw [if_pos h]; omega
+-- "fooBarBAZ x!" -> "foo-bar-baz-x"
+example : toKebab asciiUnicode [102,111,111,66,97,114,66,65,90,32,120,33]
+    = .ok [102,111,111,45,98,97,114,45,98,97,122,45,120] := by rfl
+
+/-! ### Reverse, FormatFloat -/
+
+/-- **Reverse** (the swap loop with `i`, `j`): no index fault, and the result is the reversed slice -/
+theorem goReverse_eq_reverse {α : Type} (xs : List α) : goReverse xs = .ok xs.reverse :=
+  goReverse_ok xs
+
+/-- **FormatFloat**: `format[0]` is only reached for the one-byte formats "e", "f", "g"; every
+other format is the documented panic -/
+theorem formatFloatVerb_spec (format : Bytes) :
+    (formatFloatVerb format = .ok none ∧ format ≠ [101] ∧ format ≠ [102] ∧ format ≠ [103]) ∨
+    (∃ b, format = [b] ∧ (b = 101 ∨ b = 102 ∨ b = 103) ∧ formatFloatVerb format = .ok (some b)) := by
+  unfold formatFloatVerb
+  by_cases h : Gen.BuiltinFuncs.formatFloatFormats.contains format = true
+  · right
+    rw [if_pos h]
+    have : format = [101] ∨ format = [102] ∨ format = [103] := by
+      simpa [Gen.BuiltinFuncs.formatFloatFormats] using h
+    rcases this with rfl | rfl | rfl
+    · exact ⟨101, rfl, Or.inl rfl, rfl⟩
+    · exact ⟨102, rfl, Or.inr (Or.inl rfl), rfl⟩
+    · exact ⟨103, rfl, Or.inr (Or.inr rfl), rfl⟩
+  · left
+    rw [if_neg h]
+    refine ⟨rfl, ?_⟩
+    have : ¬ (format = [101] ∨ format = [102] ∨ format = [103]) := by
+      simpa [Gen.BuiltinFuncs.formatFloatFormats] using h
+    exact ⟨fun e => this (Or.inl e), fun e => this (Or.inr (Or.inl e)), fun e => this (Or.inr (Or.inr e))⟩
+
+example : goReverse [1, 2, 3, 4, 5] = .ok [5, 4, 3, 2, 1] := by rfl
 
 end ScriggoV.Builtins
